@@ -1223,6 +1223,29 @@ func PipelineCases() []*Case {
 		f.Add(&Service{Name: "Pick", BasePath: "/t/v1", Methods: []*Method{{Name: "Pick", Verb: "POST", Path: "/pick", Request: []*Field{fld("choice", RefTo(w, ""))}, HasResponse: true}}})
 		add("recursive-oneof-request", f)
 	}
+	// an object flattened directly into a request body / response / entity data, whose own fields are
+	// the only references to further schemas
+	for _, pos := range []string{"request", "response", "query", "entity-data"} {
+		f := file("t/v1", "a")
+		leaf := obj("Leaf", fld("x", T(TString)), fld("kind", InlineOf(enumD("", "ONE", "TWO"))))
+		pick := oneofD("Pick", fld("leaf", RefTo(leaf, "")))
+		wrapper := obj("Wrapper", fld("leaf", RefTo(leaf, "")), fld("picks", ArrayOf(RefTo(pick, ""))), fld("note", T(TString)))
+		f.Add(leaf)
+		f.Add(pick)
+		f.Add(wrapper)
+		flat := &Field{Name: "wrapper", T: RefTo(wrapper, ""), Flatten: true}
+		switch pos {
+		case "request":
+			f.Add(&Service{Name: "Flat", BasePath: "/t/v1", Methods: []*Method{{Name: "PutFlat", Verb: "POST", Path: "/flat", Request: []*Field{flat, fld("other", T(TString))}, HasResponse: true}}})
+		case "query":
+			f.Add(&Service{Name: "Flat", BasePath: "/t/v1", Methods: []*Method{{Name: "GetFlat", Verb: "GET", Path: "/flat", Request: []*Field{flat}, HasResponse: true}}})
+		case "response":
+			f.Add(&Service{Name: "Flat", BasePath: "/t/v1", Methods: []*Method{{Name: "GetFlat", Verb: "GET", Path: "/flat", HasResponse: true, Response: []*Field{flat, fld("other", T(TString))}}}})
+		case "entity-data":
+			f.Add(basicEntity("Thing", []*Field{flat, fld("label", T(TString))}, []*Field{fld("label", T(TString))}))
+		}
+		add("flattened-directly:"+pos, f)
+	}
 	return out
 }
 
